@@ -92,7 +92,7 @@ def h_hist_openFile : Nat := 0x8a9c3bde26b1aeb2
 def h_hist_createFile : Nat := 0x22b178cdaab95c58
 
 /-- hash of the normalised skeleton of LoadLatest (internal/persistence/filecache/filecache.go) -/
-def h_fcache_Cache_LoadLatest : Nat := 0x03d5fc21fe19ba67
+def h_fcache_Cache_LoadLatest : Nat := 0x975fd437f751abb2
 
 /-- hash of the normalised skeleton of IsStale (internal/persistence/filecache/filecache.go) -/
 def h_fcache_Cache_IsStale : Nat := 0xa0f4c95dd2940a0c
